@@ -526,6 +526,56 @@ Theorem C13_options_same_written_tr_linked :
                 corigin c1 = corigin c2 /\ cmat c1 = cmat c2.
 Proof. intros Tr P act. exact (options_same_written_tr act). Qed.
 
+(* the same with the surface environments CONSTRUCTED from the senses senv0 of the
+   deck's own surfaces (numbers <= b): every surface made by pot_transform means
+   what the interface law says ([senv_of] = [extend] along the recorded
+   definitions).  C13_senv_of_ok: this environment satisfies the law on the final
+   state of every run of the FILL loop (C13_pot_fill_tr_inv keeps the numbering
+   invariant [sinv]) and coincides with senv0 on the deck's surfaces; hence the two
+   runs read the parsed cells alike.  The hypotheses "sem" and "the items have the
+   same denotation" of C13_options_same_written_tr_linked are discharged; still
+   assumed: D_i is a model of the cell table of run i, and sigma_i / matching_i
+   are the TRIPOLI-4 level reading of the environment at p (C02/C04) *)
+From T4V Require Import C13.ProofsTr3.
+Theorem C13_senv_of_ok : forall (Tr P : Type) (act : Tr -> P -> P) b senv0 (st : @tstate Tr), sinv b st ->
+  surfs_ok act (senv_of act senv0 st) st /\ forall x, x <= b -> forall p, senv_of act senv0 st x p = senv0 x p.
+Proof. intros Tr P act. exact (senv_of_ok act). Qed.
+
+Theorem C13_pot_fill_tr_inv : forall (Tr : Type) (tr_eqb : Tr -> Tr -> bool) b fd fg dic0 tinfo fuel key st ks st',
+  sinv b st -> pot_fill_tr tr_eqb fuel fd fg dic0 tinfo key st = Ok (ks, st') ->
+  sinv b st' /\ tskey st <= tskey st'.
+Proof. intros Tr tr_eqb. exact (pot_fill_tr_inv tr_eqb). Qed.
+
+Theorem C13_options_same_written_tr_env_linked :
+  forall (Tr P : Type) (act : Tr -> P -> P) (b : Z) (senv0 : Z -> P -> bool) dic0 tinfo fuel key
+         (sa sb : @tstate Tr) todo1 todo2 (its : list (@item P)) (D1 D2 : Z -> P -> bool) (p : P)
+         sigma1 matching1 sigma2 matching2 u0 u1 v0 v1 cfuel cnt1 cnt2 s1 s2 rn1 rn2 sk1 sk2 w1 w2 k1 k2,
+  sinv b sa -> sinv b sb -> (forall k c, lookup k dic0 = Some c -> gb b (cgeom c)) ->
+  spec act fuel dic0 tinfo key = Some its ->
+  Forall2 (matches act sa) todo1 its -> Forall2 (matches act sb) todo2 its ->
+  cells_ok (senv_of act senv0 sa) D1 sa -> cells_ok (senv_of act senv0 sb) D2 sb ->
+  (forall s, sigmaM sigma1 matching1 s = senv_of act senv0 sa s p) ->
+  (forall s, sigmaM sigma2 matching2 s = senv_of act senv0 sb s p) ->
+  good_cells matching1 (tcells sa) -> good_cells matching2 (tcells sb) ->
+  0 < u0 -> 0 < u1 -> C01.Spec.consistent sigma1 u0 u1 ->
+  0 < v0 -> 0 < v1 -> C01.Spec.consistent sigma2 v0 v1 ->
+  NoDup todo1 -> NoDup todo2 ->
+  (forall k, In k todo1 -> k <= cnt1) -> (forall k, In k todo2 -> k <= cnt2) ->
+  C01.Model.convert_cells cfuel (embed_cells (tcells sa)) matching1 u0 u1 todo1 (C01.Model.mkSt cnt1 [] [] []) = C01.Model.Ok s1 ->
+  C01.Model.convert_cells cfuel (embed_cells (tcells sb)) matching2 v0 v1 todo2 (C01.Model.mkSt cnt2 [] [] []) = C01.Model.Ok s2 ->
+  C01.Model.prune u0 u1 rn1 (C01.Model.vols s1) = C01.Model.Ok w1 ->
+  C01.Model.prune v0 v1 rn2 (C01.Model.vols s2) = C01.Model.Ok w2 ->
+  (forall r, rn1 = Some r -> C01.ProofsPrune.respects sigma1 r) ->
+  (forall r, rn2 = Some r -> C01.ProofsPrune.respects sigma2 r) ->
+  (forall k, In k sk1 -> k <= cnt1 /\ ~ In k todo1) -> (forall k, In k sk2 -> k <= cnt2 /\ ~ In k todo2) ->
+  In (k1, k2) (combine todo1 todo2) ->
+  D1 k1 p = true -> (forall c, In c todo1 -> D1 c p = true -> c = k1) ->
+  (forall k, C01.ProofsCells.in_volume sigma1 (C01.Model.written sk1 w1) k <-> k = k1) /\
+  (forall k, C01.ProofsCells.in_volume sigma2 (C01.Model.written sk2 w2) k <-> k = k2) /\
+  exists c1 c2, lookup k1 (tcells sa) = Some c1 /\ lookup k2 (tcells sb) = Some c2 /\
+                corigin c1 = corigin c2 /\ cmat c1 = cmat c2.
+Proof. intros Tr P act. exact (options_same_written_tr_env act). Qed.
+
 (* the hypotheses of that theorem for the cells pot_fill_tr returns: both runs
    realise the items of [spec], and two surface environments that agree on the
    parsed cells give every item the same denotation *)
@@ -547,6 +597,19 @@ Proof.
   exists its. split; [exact Hs|]. split; [exact M1|]. split; [exact M2|].
   intros senv1 senv2 Hag. exact (spec_den_agree act dic0 tinfo senv1 senv2 Hag fuel key its Hs).
 Qed.
+
+(* C13's own model of the tail of convertMCNPGeometry ([finish]: renumber_surfaces,
+   remove_empty_volumes, remove_unused_volumes, tied to the code by tie:finish)
+   and C01's model of the same lines ([prune]) compute the same volume table, up
+   to the representation of the PLUS / MINUS sets (sorted lists vs order of first
+   insertion: [same_set]) and of the operands (Z vs option Z): whenever finish
+   succeeds on a table, C01's prune succeeds on every related table, with the
+   renumbering of the same option setting, and the results are related *)
+From T4V Require Import C13.LinkC01Prune.
+Theorem C13_finish_is_c01_prune_linked : forall T (S : Scalar T) skip surfs volus u0 u1 s' v3 w d,
+  finish S skip surfs volus u0 u1 = Ok (s', v3, w) -> vols_rel volus d ->
+  exists d', C01.Model.prune u0 u1 (c01_rn S skip surfs) d = C01.Model.Ok d' /\ vols_rel v3 d'.
+Proof. exact @finish_is_c01_prune. Qed.
 
 (* non-vacuity of the link: both stage-1 tables of C13_example_options run through
    C01's loop and prune (with and without a renumbering) and leave the same
@@ -633,13 +696,13 @@ Print Assumptions C13_family_inline.
 
 (* pot_fill under the inline flags, with and without transformations; both stages of the options *)
 Theorem C13_family_fill :
-  ltac:(let t := type of (conj C13_fill_geometry_den (conj C13_cell_transform_den (conj C13_fill_geometry_den_tr (conj C13_pot_fill_tr_spec (conj C13_fill_tr_two_runs (conj C13_fill_flags_lockstep (conj C13_options_same_geometry C13_fill_tr_items))))))) in exact t).
-Proof. exact (conj C13_fill_geometry_den (conj C13_cell_transform_den (conj C13_fill_geometry_den_tr (conj C13_pot_fill_tr_spec (conj C13_fill_tr_two_runs (conj C13_fill_flags_lockstep (conj C13_options_same_geometry C13_fill_tr_items))))))). Qed.
+  ltac:(let t := type of (conj C13_fill_geometry_den (conj C13_cell_transform_den (conj C13_fill_geometry_den_tr (conj C13_pot_fill_tr_spec (conj C13_fill_tr_two_runs (conj C13_fill_flags_lockstep (conj C13_options_same_geometry (conj C13_senv_of_ok (conj C13_pot_fill_tr_inv C13_fill_tr_items))))))))) in exact t).
+Proof. exact (conj C13_fill_geometry_den (conj C13_cell_transform_den (conj C13_fill_geometry_den_tr (conj C13_pot_fill_tr_spec (conj C13_fill_tr_two_runs (conj C13_fill_flags_lockstep (conj C13_options_same_geometry (conj C13_senv_of_ok (conj C13_pot_fill_tr_inv C13_fill_tr_items))))))))). Qed.
 Print Assumptions C13_family_fill.
 
 (* composed with C01 (conversion loop, prune, written): the property for two option vectors *)
 Theorem C13_family_linked :
-  ltac:(let t := type of (conj C13_merged_surfaces_equal_senses (conj C13_options_same_written_linked (conj C13_options_same_written_dedup_linked (conj C13_options_same_written_provenance_linked C13_options_same_written_tr_linked)))) in exact t).
-Proof. exact (conj C13_merged_surfaces_equal_senses (conj C13_options_same_written_linked (conj C13_options_same_written_dedup_linked (conj C13_options_same_written_provenance_linked C13_options_same_written_tr_linked)))). Qed.
+  ltac:(let t := type of (conj C13_merged_surfaces_equal_senses (conj C13_options_same_written_linked (conj C13_options_same_written_dedup_linked (conj C13_options_same_written_provenance_linked (conj C13_options_same_written_tr_linked (conj C13_options_same_written_tr_env_linked C13_finish_is_c01_prune_linked)))))) in exact t).
+Proof. exact (conj C13_merged_surfaces_equal_senses (conj C13_options_same_written_linked (conj C13_options_same_written_dedup_linked (conj C13_options_same_written_provenance_linked (conj C13_options_same_written_tr_linked (conj C13_options_same_written_tr_env_linked C13_finish_is_c01_prune_linked)))))). Qed.
 Print Assumptions C13_family_linked.
 
